@@ -215,7 +215,7 @@ class MolecularOrbitals:
                     return abs(self.nelec - 2 * nbeta)
                 # restricted closed-shell natural orbitals
                 return 0.0
-            return self.occs_aminusb.sum()
+            return abs(self.occs_aminusb.sum())
         return abs(self.occsa.sum() - self.occsb.sum())
 
     @property
